@@ -42,6 +42,7 @@ type Profile struct {
 	DupLabels  bool
 	NoStaleCtx bool // predicates/state blocks do not observe c.text / c.pos (avoid Q-STALE-CTX)
 	NoFFFDLit  bool // no literal contains U+FFFD (avoid Q-LIT-EOF)
+	MemoPred   int  // percentage of sequences that start with an optional labelled item followed by a predicate on that label
 	UntilIdiom int  // percentage of sequences that are the "until" idiom (!"x" .)* !.
 	RuleLabels bool // label names are made distinct between rules (x0, x1, ..)
 	CharAlt    int  // percentage of choices built from single-character literals and small classes over a shared alphabet
@@ -94,6 +95,7 @@ type gctx struct {
 	nextCid int
 	blocks  map[int]*Block
 	depthOf map[*Node]int
+	forced  map[int]Cond // predicate conditions fixed by an idiom
 }
 
 var asciiAlpha = []string{"a", "b", "c", "A", "B", "x", "+", "1", "\n", " "}
@@ -260,6 +262,33 @@ func (g *gctx) genExpr(depth int) *Node {
 	case KAny:
 		return g.newNode(KAny)
 	case KSeq:
+		if g.p.Blocks && g.pct(g.p.MemoPred) {
+			// x:"a"? &{ x == nil } ...: evaluated from two start offsets, the predicate node is reached at one offset
+			// with two different values of x
+			lit := g.newNode(KLit)
+			lit.Lit = asciiAlpha[g.r.Intn(4)]
+			opt := g.newNode(KOpt)
+			opt.Kids = []*Node{lit}
+			lab := g.newNode(KLab)
+			lab.Label = labelNames[g.r.Intn(len(labelNames))]
+			lab.Kids = []*Node{opt}
+			k := KAndC
+			if g.pct(50) {
+				k = KNotC
+			}
+			pred := g.newNode(k)
+			pred.Cid = g.newBlock(k)
+			if g.forced == nil {
+				g.forced = map[int]Cond{}
+			}
+			g.forced[pred.Cid] = Cond{Kind: "argnil", S: lab.Label}
+			n := g.newNode(KSeq)
+			n.Kids = []*Node{lab, pred}
+			if g.pct(60) {
+				n.Kids = append(n.Kids, g.genExpr(depth+1))
+			}
+			return n
+		}
 		if g.pct(g.p.UntilIdiom) {
 			// (!"x" .)* followed by end of input: a literal matched inside a negative predicate and the end-of-input
 			// marker meet at one offset of the failure report
@@ -567,6 +596,9 @@ func (g *gctx) fillBlock(b *Block, hasState bool) {
 	b.Pred = Cond{Kind: "always"}
 	if b.Kind == KAndC || b.Kind == KNotC {
 		b.Pred = g.genCond(b.Params, st, true)
+		if c, ok := g.forced[b.Cid]; ok {
+			b.Pred = c
+		}
 	}
 	b.RetKind = "nil"
 	if b.Kind == KAct {
